@@ -27,7 +27,7 @@ impl Monitor for C02 {
 		"C02"
 	}
 	fn rule(&self) -> String {
-		"C01's replay space (fixtures, all 784 versions, layout x shape matrix incl. zero frames / no metadata / no Game End / no gecko / doubled end / empty port set, random histories) x compression {none, LZ4, ZSTD} x hash {requested, not}. Steps observed separately: slippi::read -> peppi::write -> peppi::read (through the fragmenting source: whole / 512 / 97 / random<=3000 / 8192-byte reads, rotating) -> slippi::write; oracle: final bytes == input bytes, hash and quirks after the trip == before. One evaluation = one (file, compression, hash) triple. distinct = workload classes x compression x hash.".into()
+		"C01's replay space (fixtures, all 784 versions, layout x shape matrix incl. zero frames / no metadata / no Game End / no gecko / doubled end / empty port set, random histories) x compression {none, LZ4, ZSTD} x hash {requested, not}. Steps observed separately: slippi::read -> peppi::write -> [every 4th trip: a read of the archive truncated to 2/3, which must not influence what follows] -> peppi::read (through the fragmenting source: whole / 512 / 97 / random<=3000 / 8192-byte reads, rotating) -> slippi::write; oracle: final bytes == input bytes, hash and quirks after the trip == before. One evaluation = one (file, compression, hash) triple. distinct = workload classes x compression x hash.".into()
 	}
 	fn lanes(&self, _tier: Tier) -> Vec<Lane> {
 		vec![
@@ -80,6 +80,15 @@ impl Monitor for C02 {
 					}
 				};
 				out.count("slpp_bytes", slpp.len() as u64);
+				// history: every 4th trip first attempts to read a truncated copy of the archive on the
+				// same thread (it must fail, whatever it does must not leak into the next read)
+				if (idx + ci) % 4 == 0 && slpp.len() > 2048 {
+					let cut = slpp.len() * 2 / 3;
+					match common::slpp_read(&slpp[..cut], false) {
+						Err(_) => out.count("truncated_archive_rejected_before_real_read", 1),
+						Ok(_) => out.count("truncated_archive_accepted(see C07)", 1),
+					}
+				}
 				// the archive is read through the instrumented source under a read schedule that
 				// rotates with the case: peppi::read takes any `Read`, short reads included
 				let sched = match (idx + ci + hash as usize) % 5 {
